@@ -41,7 +41,7 @@ pub struct Plan {
     pub hash_seed: String,
     /// shim rules, e.g. `write:out.rs:0:ENOSPC`
     pub rules: Vec<String>,
-    /// pass | fail | nonutf8 | missing
+    /// pass | fail | nonutf8 | missing | killed | killedpartial
     pub rustfmt: String,
 }
 
@@ -66,7 +66,7 @@ pub enum Mut {
 pub enum Step {
     Write { fmt: bool, plan: Plan },
     Check { fmt: bool, plan: Plan },
-    Print { plan: Plan },
+    Print { fmt: bool, plan: Plan },
     Edit { source: String },
     Mutate(Mut),
 }
@@ -94,7 +94,7 @@ impl Step {
         match self {
             Step::Write { fmt, plan } => json!({"op": "Write", "format": fmt, "plan": plan_json(plan)}),
             Step::Check { fmt, plan } => json!({"op": "Check", "format": fmt, "plan": plan_json(plan)}),
-            Step::Print { plan } => json!({"op": "Print", "plan": plan_json(plan)}),
+            Step::Print { fmt, plan } => json!({"op": "Print", "format": fmt, "plan": plan_json(plan)}),
             Step::Edit { source } => json!({"op": "Edit", "source": source}),
             Step::Mutate(m) => match m {
                 Mut::FlipAlnum(k) => json!({"op": "Mutate", "kind": "FlipAlnum", "arg": k}),
@@ -109,7 +109,7 @@ impl Step {
         Some(match v.get("op")?.as_str()? {
             "Write" => Step::Write { fmt, plan: plan_from(v.get("plan")?)? },
             "Check" => Step::Check { fmt, plan: plan_from(v.get("plan")?)? },
-            "Print" => Step::Print { plan: plan_from(v.get("plan")?)? },
+            "Print" => Step::Print { fmt, plan: plan_from(v.get("plan")?)? },
             "Edit" => Step::Edit { source: v.get("source")?.as_str()?.to_string() },
             "Mutate" => Step::Mutate(match v.get("kind")?.as_str()? {
                 "ToCrlf" => Mut::ToCrlf,
@@ -432,15 +432,17 @@ fn exec_in(world: &World, sc: &Scenario, dir: &Path, stats: &mut Stats) -> Optio
                 });
                 dirty = true;
             }
-            Step::Print { plan } => {
+            Step::Print { fmt, plan } => {
                 let Some(expected) = world.expected_output(&d) else { fail!("K5-fails", stepno, "logos-cli exits with an error on this enum without any fault injected") };
                 if let Some((o, w)) = world.content_verdict(&d) { fail!(o, stepno, "{}", w); }
-                let inv = world.invoke(dir, &["in.rs"], plan);
+                let mut args = vec!["in.rs"];
+                if *fmt { args.push("--format"); }
+                let inv = world.invoke(dir, &args, plan);
                 stats.invocations += 1;
                 stats.hit("op_print");
                 count_faults(&inv.log, stats);
                 if let Some(l) = touched_out(&inv.log) { fail!("K4-writes", stepno, "stdout mode touched the output file: {l}"); }
-                let hard = hard_rules(plan, false);
+                let hard = hard_rules(plan, *fmt);
                 let want = format!("{expected}\n");
                 if inv.code == 0 && inv.stdout != want.as_bytes() {
                     let at = inv.stdout.iter().zip(want.as_bytes()).position(|(a, b)| a != b).unwrap_or(inv.stdout.len().min(want.len()));
@@ -558,7 +560,7 @@ fn gen_plan(rng: &mut Rng, kind: u8, faults: bool) -> Plan {
             }
         }
         if rng.chance(1, 4) {
-            rustfmt = rng.pick(&["fail", "nonutf8", "missing"]).to_string();
+            rustfmt = rng.pick(&["fail", "nonutf8", "missing", "killed", "killedpartial"]).to_string();
         }
     }
     Plan { hash_seed, rules, rustfmt }
@@ -597,7 +599,7 @@ fn gen_scenario(rng: &mut Rng, defs: &[Definition], index: u64, faults: bool) ->
             1 => Step::Write { fmt: true, plan: gen_plan(rng, 0, faults) },
             2 => Step::Check { fmt: false, plan: gen_plan(rng, 1, faults) },
             3 => Step::Check { fmt: true, plan: gen_plan(rng, 1, faults) },
-            4 => Step::Print { plan: gen_plan(rng, 2, faults) },
+            4 => { let fmt = faults && rng.chance(1, 3); Step::Print { fmt, plan: gen_plan(rng, 2, faults) } }
             5 => {
                 let other = &defs[rng.below(defs.len())];
                 approx_len = 4000;
@@ -642,7 +644,7 @@ fn minimise(world: &World, sc: &Scenario, v: &Violation, tag: &str) -> (Scenario
     for i in 0..best.steps.len() {
         let mut t = best.clone();
         let simplified = match &mut t.steps[i] {
-            Step::Write { plan, .. } | Step::Check { plan, .. } | Step::Print { plan } => {
+            Step::Write { plan, .. } | Step::Check { plan, .. } | Step::Print { plan, .. } => {
                 if plan.rules.is_empty() && plan.rustfmt == "pass" { false } else { plan.rules.clear(); plan.rustfmt = "pass".into(); true }
             }
             _ => false,
